@@ -203,6 +203,18 @@ def run_programs(spec, ctx):
             b = ("date", (y, mo, d, r.randint(0, 23), r.randint(0, 59), r.randint(0, 59)))
         if kind == "str" and r.random() < 0.3 and a[1]:
             b = ("str", a[1][:-1])
+        if kind in ("num", "list") and r.random() < 0.25:
+            # the same number as the other kind (2 and 2.0), also inside lists: equal, so neither is less
+            def twin_(x):
+                if x[0] == "int" and abs(x[1]) < 2**53:
+                    return ("dec", float(x[1]))
+                if x[0] == "dec" and x[1] == int(x[1]) and abs(x[1]) < 2**53:
+                    return ("int", int(x[1]))
+                if x[0] == "list":
+                    return ("list", tuple(twin_(y) for y in x[1]))
+                return x
+            b = twin_(a)
+            ctx.count("other_kind_twins")
         if not (gv.finite(a) and gv.finite(b)) or not rv.same_order_kind(a, b):
             continue
         sa, sb = gv.to_source(a, r, r), gv.to_source(b, r, r)
